@@ -87,6 +87,15 @@ def coarse(x):
     return type(x).__name__
 
 
+def kinds_for(c, kinds):
+    """the storages a configuration can be replayed on: blobs need blob support, a refused tpc_begin needs FileStorage"""
+    if 'bf' in c['Ops']:
+        return ('file',)
+    if c['Blobs']:
+        return tuple(k for k in kinds if k != 'mapping')
+    return tuple(kinds)
+
+
 def job_opts(ctx, i, kinds, objs):
     shapes = ('map', 'list', 'vobj')
     return {'kind': kinds[(i + ctx.seed) % len(kinds)],
@@ -118,6 +127,10 @@ class Cover:
 
 def attribute(m, c, primary):
     """which deviation of the code a violated clause goes back to"""
+    if m.get('action') == 'AddWhileFailed' and c.get('AddBeforeJoin'):
+        return 'AddBeforeJoin'
+    if 'imported' in (m.get('role') or '').split('+') and c.get('ImportNotCreating'):
+        return 'ImportNotCreating'
     d = cd.CLAUSE_DEVIATION.get(m['clause'])
     if d:
         return d
@@ -139,7 +152,7 @@ def annotate(results, c, steps_of, origin, have=None):
         primary = {}
         for m in r['monitor']:
             if m['clause'] in cd.CLAUSE_DEVIATION:
-                primary.setdefault((m['step'], m['obj']), set()).add(cd.CLAUSE_DEVIATION[m['clause']])
+                primary.setdefault((m['step'], m['obj']), set()).add(attribute(m, c, None))
         for m in r['monitor']:
             dev = attribute(m, c, primary.get((m['step'], m['obj'])) or {x for v in primary.values() for x in v})
             sig = {'kind': 'property', 'clause': m['clause'], 'deviation': dev}
@@ -229,6 +242,7 @@ def exhibit(ctx, cov, name, c, dev, deviation, invariant, kinds, timeout=300):
     steps = trace_steps(r.trace)
     shown = []
     results = []
+    kinds = kinds_for(cc, kinds)
     for i, kind in enumerate(kinds):
         opts = dict(job_opts(ctx, i, [kind], c['Obj']), kind=kind)
         res = cd.replay_path((steps, cc, kind, os.path.join(ctx.scratch, 'cex-%s-%s' % (name, kind)), opts))
@@ -272,6 +286,11 @@ def deviations(ctx, cov, kinds, blobs=False):
         dev['SpBlobByName'] = exhibit(ctx, cov, 'savepoint-blob-overwritten',
                                       cd.consts(Obj=('a', 'k'), Blobs=('k',), Edges='EdgesBlob', Ops=('add', 'sp'), MaxSp=2,
                                                 MaxCommit=1, MaxAct=5), dev, 'SpBlobByName', 'RollbackValue', bk)
+    dev['AddBeforeJoin'] = exhibit(ctx, cov, 'add-while-transaction-failed', cd.consts(Ops=('add', 'awf'), **SMALL), dev,
+                                   'AddBeforeJoin', 'NoOwnedUncommitted', kinds)
+    dev['ImportNotCreating'] = exhibit(ctx, cov, 'imported-object-never-disowned',
+                                       cd.consts(Ops=('sp', 'imp'), MaxSp=1, **SMALL), dev, 'ImportNotCreating',
+                                       'NoOwnedUncommitted', kinds)
     cov.timing['counterexamples_s'] = round(time.time() - t0, 1)
     return dev
 
@@ -293,8 +312,7 @@ def _graph_process(conn_, ctx, name, c, dot, distinct, kinds, budget, cap, worke
     """load, plan and replay one dumped graph (its own process: the replay workers are forked from it)"""
     try:
         t0 = time.time()
-        if c['Blobs']:
-            kinds = tuple(k for k in kinds if k != 'mapping')
+        kinds = kinds_for(c, kinds)
         g = cg.load(dot)
         os.remove(dot)
         if len(g.raw) != distinct:
@@ -384,7 +402,7 @@ def check_all(ctx, cov, items, dev, kinds, budget=None, cap=250, timeout=1500):
         judge(ctx, cov, results)
         st['constants'] = {k: c[k] for k in ('Obj', 'Blobs', 'Edges', 'Pre', 'MaxSp', 'MaxCommit', 'MaxOther', 'MaxAct',
                                              'MaxTail', 'Ops')}
-        st['storages'] = [k for k in kinds if k != 'mapping' or not c['Blobs']]
+        st['storages'] = list(kinds_for(c, kinds))
         cov.graphs[name] = st
     cov.timing['load_plan_replay_s'] = round(time.time() - t0, 1)
 
@@ -394,8 +412,7 @@ def simulate(ctx, cov, name, c, dev, kinds, num, depth):
     import glob
     t0 = time.time()
     c = with_dev(c, dev)
-    if c['Blobs']:
-        kinds = tuple(k for k in kinds if k != 'mapping')
+    kinds = kinds_for(c, kinds)
     wd = os.path.join(ctx.scratch, 'sim-' + name)
     out = os.path.join(wd, 'out')
     os.makedirs(out, exist_ok=True)
